@@ -850,33 +850,43 @@ func (s *Entry) TraceContext(ctx context.Context, msg string, args ...any) {
 
 // PrintContext implements Logger.
 func (s *Entry) PrintContext(ctx context.Context, msg string, args ...any) {
-	pc := getpc(2, s.extraFrames)
-	s.logContext(ctx, AlwaysLevel, pc, msg, args...)
+	if s.EnabledContext(ctx, AlwaysLevel) {
+		pc := getpc(2, s.extraFrames)
+		s.logContext(ctx, AlwaysLevel, pc, msg, args...)
+	}
 	// panic("unimplemented")
 }
 
 // PrintlnContext implements Logger.
 func (s *Entry) PrintlnContext(ctx context.Context, msg string, args ...any) {
-	pc := getpc(2, s.extraFrames)
-	s.logContext(ctx, AlwaysLevel, pc, msg, args...)
+	if s.EnabledContext(ctx, AlwaysLevel) {
+		pc := getpc(2, s.extraFrames)
+		s.logContext(ctx, AlwaysLevel, pc, msg, args...)
+	}
 }
 
 // OKContext implements Logger.
 func (s *Entry) OKContext(ctx context.Context, msg string, args ...any) {
-	pc := getpc(2, s.extraFrames)
-	s.logContext(ctx, OKLevel, pc, msg, args...)
+	if s.EnabledContext(ctx, OKLevel) {
+		pc := getpc(2, s.extraFrames)
+		s.logContext(ctx, OKLevel, pc, msg, args...)
+	}
 }
 
 // SuccessContext implements Logger.
 func (s *Entry) SuccessContext(ctx context.Context, msg string, args ...any) {
-	pc := getpc(2, s.extraFrames)
-	s.logContext(ctx, SuccessLevel, pc, msg, args...)
+	if s.EnabledContext(ctx, SuccessLevel) {
+		pc := getpc(2, s.extraFrames)
+		s.logContext(ctx, SuccessLevel, pc, msg, args...)
+	}
 }
 
 // FailContext implements Logger.
 func (s *Entry) FailContext(ctx context.Context, msg string, args ...any) {
-	pc := getpc(2, s.extraFrames)
-	s.logContext(ctx, FailLevel, pc, msg, args...)
+	if s.EnabledContext(ctx, FailLevel) {
+		pc := getpc(2, s.extraFrames)
+		s.logContext(ctx, FailLevel, pc, msg, args...)
+	}
 }
 
 // LogAttrs implements Logger.
